@@ -1,4 +1,4 @@
-#![allow(dead_code, clippy::all)]
+#![allow(dead_code, unexpected_cfgs, clippy::all)]
 mod crumbs;
 mod env;
 mod explore;
